@@ -290,10 +290,10 @@ class Run:
         return ok
 
     # ---- model case
-    def model_case(self, fixes=(True, True, True), faults=()):
+    def model_case(self, fixes=(True, True, True, True), faults=()):
         root = os.fsencode(self.rootp)
         cfg = [self.recursive, self.full, DELAY_UNITS, root, Atom("all"), fixes[0], fixes[1], fixes[2], list(faults),
-               Atom("none")]
+               Atom("none"), fixes[3] if len(fixes) > 3 else True]
         ents = [[p, i + 1, d] for i, (p, d) in enumerate(self.init_fs)]
         acts = []
         for e in self.log:
